@@ -13,6 +13,7 @@ import (
 	"golang.org/x/crypto/blake2b"
 	"pgregory.net/rapid"
 
+	"verifharness/fc"
 	"verifharness/h"
 	"verifharness/ref/curl"
 	ref "verifharness/ref/pow"
@@ -20,6 +21,7 @@ import (
 )
 
 func TestMain(m *testing.M) {
+	h.FirstCallsChild(fc.Pow()) // never returns in a first-call child process
 	if err := trit.SelfCheck(); err != nil {
 		panic(err)
 	}
@@ -305,3 +307,6 @@ func TestMine(t *testing.T) {
 		Rule:    "data of 0..64 bytes x targets with len*target at / just above / just below 3^s (s = 2..9), random and tiny targets x workers (1 for completeness, 2..16 for soundness): returned nonce has v2.Score >= target (and reference score >= target); with one worker every nonce of every skipped 64-block is re-hashed with the scalar reference and must not have difficulty > len*target; non-trivial = at least one skipped block or multi-worker; distinct by case",
 	})
 }
+
+// which public entry point is called first in a process (and by how many goroutines at once)
+func TestFirstCalls(t *testing.T) { h.FirstCallsSub(t, "C12", fc.Pow(), 6) }
